@@ -142,7 +142,16 @@ Lemma gen_process_delegation_shape : src_process_delegation = map s2b [
   "rs.level = nlevel" ].
 Proof. vm_compute. reflexivity. Qed.
 
-(* ... and the cached path at rs.level + 1 (finding glue-level-cached-descent; when fix.patch is
-   applied this lemma and [descent_step] are to be replaced by the [descent_step_fixed] form) *)
-Lemma gen_cached_descent_level_shape : src_cached_descent_level = map s2b [ "rs.level++" ].
+(* ... and the cached path at the deeper of rs.level + 1 and CountLabel(child) (commit 767eb6f) *)
+Lemma gen_cached_descent_level_shape : src_cached_descent_level = map s2b [
+  "rs.level++";
+  "if n := dns.CountLabel(q.Name); rs.level < n {";
+  "rs.level = n" ].
+Proof. vm_compute. reflexivity. Qed.
+
+(* Resolver.answer: the Answer section is cut down to the answering zone before anything else
+   (DNAME follow-up, validation, relay) looks at it (commit 767eb6f) *)
+Lemma gen_answer_filter_shape : src_answer_filter = map s2b [
+  "resp.Answer = dnsutil.FilterRRsToZone(resp.Answer, zone)";
+  "targetMsg, targetCut, err := r.checkDname(ctx, resp)" ].
 Proof. vm_compute. reflexivity. Qed.
